@@ -56,12 +56,17 @@ def fns(S, tag='u64', cxx='unsigned long'):
               members=[(r'^notify_all\|std::condition_variable', 'nv_notify'), (r'^begin\|std::vector<std::thread', '((uint64_t)0)'),
                        (r'^end\|std::vector<std::thread', '{self}->size'), (r'^join\|std::thread', 'nv_thread_join')], **pcommon)
 
-    scommon = dict(self_struct='struct nv_section', types=[(ITER, 'uint64_t')] + TYPES, uf_float=False)
+    # a LOCAL vector of futures (swap / move out of the section), wait_for: same vocabulary as the sequential target (spec.FUTVEC)
+    scommon = dict(self_struct='struct nv_section', types=[(ITER, 'uint64_t'), (r'^(%s)$' % S['FUTVEC'], 'struct nv_section')] + TYPES, uf_float=False)
     block = Fn('section_block', SRC, 'block', flt='section_t::block',
-               calls=ITER_OPS + [(r'^operator\*\|.*__normal_iterator<std::shared_future', '(*nv_future_at(self, {0}))')],
+               calls=ITER_OPS + [(r'^operator\*\|.*__normal_iterator<(const )?std::shared_future', '(*nv_future_at(__range1, {0}))'),
+                                 (r'^ctor\|(%s)\|void \((std::)?vector<.*> &&\)' % S['FUTVEC'], 'nv_futvec_move({&0})'), (r'^move\|', '{0}'),
+                                 (r'^swap\|.*\|(%s|nano::parallel::section_t)' % S['FUTVEC'], 'nv_futvec_swap({&0}, {&1})')],
                members=[(r'^begin\|std::vector<std::shared_future', '((uint64_t)0)'), (r'^end\|std::vector<std::shared_future', '{self}->size'),
+                        (r'^swap\|std::vector<std::shared_future', 'nv_futvec_swap({self}, {&0})'),
                         (r'^valid\|std::__basic_future<void>', 'nv_future_valid'), (r'^get\|std::shared_future<void>', 'nv_future_get!'),
-                        (r'^wait\|std::__basic_future<void>', 'nv_future_wait')], **scommon)
+                        (r'^wait\|std::__basic_future<void>', 'nv_future_wait'),
+                        (r'^wait_(for|until)\|std::__basic_future<void>', 'nv_future_wait_for({self})')], **scommon)
     sdtor = Fn('section_dtor', SRC, '~section_t', flt='section_t::~section_t', kinds=('CXXDestructorDecl',),
                members=[(r'^block\|nano::parallel::section_t', 'section_block')], **scommon)
 
@@ -161,13 +166,18 @@ def targets(tier, S):
         return Target(name, lambda: [F()[k] for k in order], PRELUDE, enforce_none=True, dfcc=False, harness=MAIN_A, checks=checks,
                       nondet_exclude=['nv_tid', 'nv_i_hold', 'nv_joined', 'nv_thread_cur'],
                       defines=[f'NV_MAXT={n}', f'NV_MAXE={n}', 'NV_MAP=map_index_u64', 'NV_TASK_BODY=map_index_task_u64'] + (['NV_WORKER1_NEVER_SCHEDULED'] if one_worker else []),
-                      cbmc_flags=flags(n + 1) + ['--sat-solver', 'cadical'], timeout=280,
+                      cbmc_flags=flags(max(n + 1, 3)) + ['--sat-solver', 'cadical'], timeout=280,
                       bound=f'pool_t(2) (any hardware_concurrency: pool size 1 or 2), 1 submitter, map(elements <= {n}, op, any raise) un-chunked size_t, then ~pool_t; '
                             + ('ONLY the schedules in which worker thread 1 never runs before it is joined (main + worker 0 interleave freely); ' if one_worker else 'both workers; ')
-                            + f'loops unwound {n + 1}x with unwinding assertions; sequential consistency; wait(lock, pred) blocks until pred (notify abstracted)',
+                            + f'loops unwound {max(n + 1, 3)}x with unwinding assertions; sequential consistency; wait(lock, pred) blocks until pred (notify abstracted)',
                       note='BOUNDED interleavings (CBMC threads, partial-order encoding) of the extracted pool code; never counted as proved')
-    out.append(scen_a(2, True))
+    # quick tier: the one-element scenario (sequential branch of map; constructor, idle workers, shutdown: 3-5 s); the two-element
+    # scenario (tasks really go through the queue: 55-70 s of SAT time, no solver / slicing option brought it under 40 s, see
+    # not_decided) runs in the thorough tier, and whenever NV_C17_CONC2 is set (the canary mutations of mutations.json ask for it)
     import os
+    out.append(scen_a(1, True))
+    if tier == 'thorough' or os.environ.get('NV_C17_CONC2'):
+        out.append(scen_a(2, True))
     if os.environ.get('NV_C17_TWO_WORKERS'):     # opt-in: does not terminate within 280 s with CBMC 6.11 (see not_decided)
         out.append(scen_a(2, False))
     return out
